@@ -28,7 +28,30 @@ static u8 T_res[SP_K][SP_N + 1];
 static u64 T_np[SP_K][SP_N + 1];
 static u64 T_garb[SP_K][SP_N + 1];
 static int sp_exhausted;
-static int sp_expect_a = -1;   /* apply mode every sub-rule call has to see (rules that do not switch actions on or off themselves); -1: no expectation */
+/* apply mode the rule under test was called with (rules that do not switch actions on or off themselves); -1: no expectation.
+ * 0 (nothing): no sub-rule call may enable actions.  1 (action): a sub-rule may be tried without actions first (pure look-ahead), but when the
+ * rule succeeds the LAST call of every sub-rule at every position must have had actions enabled (otherwise actions below it are lost). */
+static int sp_expect_a = -1;
+static u8 sp_last_a[SP_K][SP_N + 1];    /* 0 not called, 1 last call without actions, 2 last call with actions */
+#ifdef SP_K2
+static u8 sp_last_a2[SP_K2][SP_N + 1];
+#endif
+static void sp_expect_reset(int a) {
+  sp_expect_a = a;
+  for (int k = 0; k < SP_K; ++k) for (u64 p = 0; p <= SP_N; ++p) sp_last_a[k][p] = 0;
+#ifdef SP_K2
+  for (int k = 0; k < SP_K2; ++k) for (u64 p = 0; p <= SP_N; ++p) sp_last_a2[k][p] = 0;
+#endif
+}
+static void sp_expect_check(u64 result) {
+  if (sp_expect_a == 1 && result == 1) {
+    for (int k = 0; k < SP_K; ++k) for (u64 p = 0; p <= SP_N; ++p) CHECK(sp_last_a[k][p] != 1, "the rule hands its own apply mode (action) on to its sub-rule");
+#ifdef SP_K2
+    for (int k = 0; k < SP_K2; ++k) for (u64 p = 0; p <= SP_N; ++p) CHECK(sp_last_a2[k][p] != 1, "the rule hands its own apply mode (action) on to its sub-rule (re-matched on a sub-input)");
+#endif
+  }
+  sp_expect_a = -1;
+}
 static unsigned long sp_calls;
 
 /* call log of the real run (who was asked what) */
@@ -51,7 +74,8 @@ u32 x_verif_sym(u32 k, u64 pos, u32 a, u32 m, u64 *np) {
   if (k >= SP_K || pos > sp_n) { printf("ASSERT-FAIL stub called out of range k=%u pos=%llu\n", k, (unsigned long long)pos); vf_fail++; *np = pos; return 0; }
 #endif
   CHECK(k < SP_K && pos <= sp_n, "sub-rule invoked at a position inside the input");
-  if (sp_expect_a >= 0) CHECK(a == (u32)sp_expect_a, "the rule hands its own apply mode on to its sub-rule");
+  if (sp_expect_a == 0) CHECK(a == 0, "a rule called with actions disabled never enables them for a sub-rule");
+  if (sp_expect_a == 1 && k < SP_K && pos <= SP_N) sp_last_a[k][pos] = a ? 2 : 1;
 #if SP_LOG
   if (sp_nlog < SP_LOG) { sp_log_k[sp_nlog] = k; sp_log_a[sp_nlog] = a; sp_log_m[sp_nlog] = m; sp_log_pos[sp_nlog] = pos; }
   sp_nlog++;
@@ -81,7 +105,8 @@ u32 x_verif_sym2(u32 k, u64 pos, u64 end, u32 a, u32 m, u64 *np) {
   if (k >= SP_K2 || pos > end || end > sp_n) { printf("ASSERT-FAIL stub2 called out of range\n"); vf_fail++; *np = pos; return 0; }
 #endif
   CHECK(k < SP_K2 && pos <= end && end <= sp_n, "sub-rule invoked at a position inside its (sub-)input");
-  if (sp_expect_a >= 0) CHECK(a == (u32)sp_expect_a, "the rule hands its own apply mode on to its sub-rule (re-matched on a sub-input)");
+  if (sp_expect_a == 0) CHECK(a == 0, "a rule called with actions disabled never enables them for a sub-rule (re-matched on a sub-input)");
+  if (sp_expect_a == 1 && k < SP_K2 && pos <= SP_N) sp_last_a2[k][pos] = a ? 2 : 1;
   u32 r = T2_res[k][pos][end];
   if (r == 1) *np = T2_np[k][pos][end];
   else if (r >= 2) *np = T2_garb[k][pos][end];
